@@ -464,7 +464,12 @@ void eng_run_history(void)
                         if (s == CAT_STATUS_OK && INPOS >= INLEN && HOLD_PHASE == 0) { quiet = true; break; }
                 }
                 CNT("progress_measurements");
-                if (!quiet && !taint_hold) { viol("C15", "no-quiescence", "no OK from cat_service within the progress bound of %ld calls after all stimulus stopped", B); return; }
+                if (!quiet && !taint_hold) {
+                        long total = 0; bool nb = false;
+                        for (size_t i = 0; i < INLEN; i++) { if (INB[i] == '\n') { if (nb) total++; nb = false; } else if (INB[i] != '\r') nb = true; }
+                        if (RESULT_CODES < total) viol("C01", "line-never-answered", "%ld result codes for %ld non-blank lines after the progress bound of %ld calls with io always ready (input consumed up to offset %zu of %zu)", RESULT_CODES, total, B, INPOS, INLEN);
+                        viol("C15", "no-quiescence", "no OK from cat_service within the progress bound of %ld calls after all stimulus stopped", B); return;
+                }
                 if (taint_hold || !quiet) return;
         }
         long total = 0; bool nb = false;
